@@ -45,13 +45,16 @@ Lemma mk_date_np z : mk_date z <> Panic.
 Proof. unfold mk_date. destruct (date_ok z); discriminate. Qed.
 
 (** *** expressions and functions never panic: every failure is an EvalError (Err) or "unmodelled" *)
+Lemma int_or_float_np z f : int_or_float z f <> Panic.
+Proof. unfold int_or_float. destruct (in_i64 z); [discriminate|]. destruct (from_float f); discriminate. Qed.
+
 Lemma arith_no_panic : forall a b,
   vadd a b <> Panic /\ vsub a b <> Panic /\ vmul a b <> Panic /\ vdiv a b <> Panic.
 Proof.
   intros a b. repeat split.
-  - unfold vadd. destruct (int_text a), (int_text b); cbn [vadd_typed]; try apply binary_op_np; try apply mk_dur_np; try apply mk_date_np; discriminate.
-  - unfold vsub. destruct (int_text a), (int_text b); cbn [vsub_typed]; try apply binary_op_np; try apply mk_dur_np; try apply mk_date_np; discriminate.
-  - unfold vmul. destruct (int_text a), (int_text b); cbn [vmul_typed]; try apply binary_op_np; try apply mk_dur_np; discriminate.
+  - unfold vadd. destruct (int_text a), (int_text b); cbn [vadd_typed]; try apply binary_op_np; try apply mk_dur_np; try apply mk_date_np; try apply int_or_float_np; discriminate.
+  - unfold vsub. destruct (int_text a), (int_text b); cbn [vsub_typed]; try apply binary_op_np; try apply mk_dur_np; try apply mk_date_np; try apply int_or_float_np; discriminate.
+  - unfold vmul. destruct (int_text a), (int_text b); cbn [vmul_typed]; try apply binary_op_np; try apply mk_dur_np; try apply int_or_float_np; discriminate.
   - unfold vdiv. destruct a, (int_text b); cbn [vdiv_typed]; try apply binary_op_np.
     match goal with |- context[negb (?x =? 0)%Z] => destruct (negb (x =? 0)%Z) end; discriminate.
 Qed.
